@@ -3,6 +3,8 @@
 mod api;
 mod canary;
 mod common;
+mod diffmon;
+mod universe;
 mod props;
 mod report;
 
@@ -92,6 +94,9 @@ fn main() {
             let extra = Json::obj();
             match ctx.prop.as_str() {
                 "C01" => props::c01::run(&ctx, &mut rep),
+                "C02" => props::c02::run(&ctx, &mut rep),
+                "C03" => props::c03::run(&ctx, &mut rep),
+                "C04" => props::c04::run(&ctx, &mut rep),
                 other => {
                     eprintln!("unknown property {other}");
                     std::process::exit(2);
